@@ -71,6 +71,10 @@ func (e *ExecutionConfig) UnmarshalJSON(input []byte) error {
 		}
 
 		copy(pubKey[:], pubkey)
+		if _, exists := proposerConfigs[pubKey]; exists {
+			// Two spellings of the same key; which one is used would depend on map iteration order.
+			return fmt.Errorf("duplicate proposer config for public key %#x", pubKey)
+		}
 		proposerConfigs[pubKey] = config
 	}
 	e.ProposerConfigs = proposerConfigs
